@@ -6,6 +6,7 @@ import (
 	"encoding/binary"
 	"fmt"
 	"io"
+	"runtime"
 	"strings"
 	"time"
 
@@ -101,11 +102,12 @@ type Hold struct {
 
 // World is a store plus reference model plus scheduler.
 type World struct {
-	T     Fataler
-	Cfg   Config
-	St    *Store
-	Sched *sim.Sched
-	Ctx   context.Context
+	afterCompositeCall func()
+	T                  Fataler
+	Cfg                Config
+	St                 *Store
+	Sched              *sim.Sched
+	Ctx                context.Context
 
 	Objs    []*Obj
 	byHash  map[string]*Obj
@@ -702,10 +704,14 @@ func (w *World) FindMissing(items []ObjInst) ([]bool, error) {
 	}
 	failsBefore := w.St.Alloc.NewBlockFailures
 	missing, err := w.St.BA.FindMissing(w.Ctx, sb.Build())
+	return w.evalFindMissing(items, missing, err, failsBefore, false)
+}
+
+func (w *World) evalFindMissing(items []ObjInst, missing digest.Set, err error, failsBefore int, envDuring bool) ([]bool, error) {
 	if err != nil {
 		code := status.Code(err)
 		_ = code
-		env := w.St.Alloc.NewBlockFailures != failsBefore || w.Closed || w.deviceFaultsArmed() || w.Corrupt
+		env := envDuring || w.St.Alloc.NewBlockFailures != failsBefore || w.Closed || w.deviceFaultsArmed() || w.Corrupt
 		w.logf("findmissing %d items -> error %v", len(items), err)
 		if !env {
 			w.fatalf("FindMissing failed with %v on a healthy medium", err)
@@ -737,6 +743,105 @@ func (w *World) FindMissing(items []ObjInst) ([]bool, error) {
 	return present, nil
 }
 
+// OverlappedFindMissing runs FindMissing(items) as a second client whose
+// call overlaps with other operations: it is started (on its own goroutine)
+// inside the slicing phase of a composite read of `parent`, during which
+// the flat store holds its refresh lock. The existence check therefore
+// performs its first scan, then waits for the refresh lock; `between` runs
+// in that window (uploads, rotations, a read that detects corruption); the
+// second, refreshing scan runs once the composite read has returned. The
+// result is evaluated by the model exactly like a plain FindMissing.
+// overlapped reports whether the check was really seen waiting for the lock
+// (it is false e.g. when nothing needed a refresh, or for hierarchical
+// stores whose composite reads do not take the lock).
+func (w *World) OverlappedFindMissing(parent *Obj, instance string, items []ObjInst, between func()) (present []bool, err error, overlapped bool) {
+	sb := digest.NewSetBuilder(0)
+	for _, it := range items {
+		sb.Add(it.Obj.Digest(it.Instance))
+	}
+	set := sb.Build()
+	type fmResult struct {
+		missing digest.Set
+		err     error
+	}
+	done := make(chan fmResult, 1)
+	started := false
+	failsBefore := w.St.Alloc.NewBlockFailures
+	envDuring := false
+	var res fmResult
+	joined := false
+	join := func() {
+		if started && !joined {
+			res = <-done
+			joined = true
+		}
+	}
+	during := func() {
+		started = true
+		go w.overlapFMWorker(set, func(m digest.Set, e error) { done <- fmResult{m, e} })
+		// Wait until the worker has finished or is parked on a mutex.
+		for i := 0; i < 20000; i++ {
+			select {
+			case res = <-done:
+				joined = true
+			default:
+			}
+			if joined {
+				break
+			}
+			if found, blocked := goroutineState("lstore.(*World).overlapFMWorker"); found && blocked {
+				overlapped = true
+				break
+			}
+			runtime.Gosched()
+			if i > 100 {
+				time.Sleep(50 * time.Microsecond)
+			}
+		}
+		w.logf("findmissing(second client, %d items) started; waiting for the refresh lock=%v", len(items), overlapped)
+		between()
+		envDuring = w.Closed || w.deviceFaultsArmed() || w.Corrupt
+	}
+	w.afterCompositeCall = join
+	w.GetFromCompositeDuring(parent, instance, nil, 0, during)
+	w.afterCompositeCall = nil
+	if !started {
+		// The composite read did not reach its slicer (parent gone):
+		// perform the existence check on its own.
+		between()
+		present, err = w.FindMissing(items)
+		return present, err, false
+	}
+	join()
+	present, err = w.evalFindMissing(items, res.missing, res.err, failsBefore, envDuring)
+	return present, err, overlapped
+}
+
+// overlapFMWorker is the body of the second client's goroutine (its name
+// is looked for in goroutine dumps).
+func (w *World) overlapFMWorker(set digest.Set, report func(digest.Set, error)) {
+	missing, err := w.St.BA.FindMissing(w.Ctx, set)
+	report(missing, err)
+}
+
+// goroutineState looks for a goroutine whose stack contains marker and
+// reports whether it is parked acquiring a sync.Mutex.
+func goroutineState(marker string) (found, blocked bool) {
+	buf := make([]byte, 1<<20)
+	buf = buf[:runtime.Stack(buf, true)]
+	for _, g := range strings.Split(string(buf), "\n\n") {
+		if !strings.Contains(g, marker) {
+			continue
+		}
+		hdr := g
+		if i := strings.IndexByte(g, '\n'); i >= 0 {
+			hdr = g[:i]
+		}
+		return true, strings.Contains(hdr, "sync.Mutex.Lock") || (strings.Contains(hdr, "semacquire") && strings.Contains(g, "sync.(*Mutex).Lock"))
+	}
+	return false, false
+}
+
 // compositeSlicer designates slices of a parent at fixed cut points.
 type compositeSlicer struct {
 	w        *World
@@ -748,10 +853,16 @@ type compositeSlicer struct {
 	slices   []slicing.BlobSlice
 	sliceDat [][]byte
 	err      error
+	// during runs inside the unlocked slicing phase (the store holds
+	// only its refresh lock): other clients' uploads complete here.
+	during func()
 }
 
 func (s *compositeSlicer) Slice(b buffer.Buffer, child digest.Digest) (buffer.Buffer, []slicing.BlobSlice) {
 	data, err := b.ToByteSlice(1 << 26)
+	if s.during != nil {
+		s.during()
+	}
 	if err != nil {
 		s.err = err
 		return buffer.NewBufferFromError(err), nil
@@ -783,6 +894,12 @@ func (s *compositeSlicer) Slice(b buffer.Buffer, child digest.Digest) (buffer.Bu
 // GetFromComposite reads child number `want` of the partition of the
 // parent at `cuts`.
 func (w *World) GetFromComposite(parent *Obj, instance string, cuts []int, want int) ReadResult {
+	return w.GetFromCompositeDuring(parent, instance, cuts, want, nil)
+}
+
+// GetFromCompositeDuring is GetFromComposite with `during` executed while
+// the slicer runs, i.e. in the unlocked slicing phase of the call.
+func (w *World) GetFromCompositeDuring(parent *Obj, instance string, cuts []int, want int, during func()) ReadResult {
 	// The child digest must be known up front: derive it from the
 	// parent content the model knows.
 	bounds := append(append([]int{}, cuts...), len(parent.Data))
@@ -803,12 +920,40 @@ func (w *World) GetFromComposite(parent *Obj, instance string, cuts []int, want 
 	}
 	childData := parts[want]
 	childDigest := hx.Dig(instance, parent.Fn, childData)
-	sl := &compositeSlicer{w: w, instance: instance, fn: parent.Fn, cuts: cuts, want: want}
+	sl := &compositeSlicer{w: w, instance: instance, fn: parent.Fn, cuts: cuts, want: want, during: during}
 	failsBefore := w.St.Alloc.NewBlockFailures
+	var refreshTarget *LiveBlock
+	if during != nil {
+		putsBefore := map[*LiveBlock]int32{}
+		for _, lb := range w.AllLive {
+			putsBefore[lb] = lb.Info.Puts
+		}
+		sl.during = func() {
+			// Only this call ran so far: a block that received an
+			// allocation is the target of the parent's refresh copy.
+			for _, lb := range w.AllLive {
+				if lb.Info.Puts != putsBefore[lb] {
+					refreshTarget = lb
+				}
+			}
+			during()
+		}
+	}
 	b := w.St.BA.GetFromComposite(w.Ctx, parent.Digest(instance), childDigest, sl)
+	if f := w.afterCompositeCall; f != nil {
+		w.afterCompositeCall = nil
+		f()
+	}
 	data, err := b.ToByteSlice(1 << 26)
 	if err != nil {
 		w.logf("composite parent=%d cuts=%v want=%d -> %v", parent.ID, cuts, want, err)
+		if refreshTarget != nil && (refreshTarget.Popped || refreshTarget.Quarantined) && status.Code(err) == codes.Internal {
+			// Uploads completing while the slicer ran rotated the block
+			// receiving the parent's refresh copy away: like an upload
+			// whose target block was rotated away, the call fails.
+			w.Flags["composite_refresh_target_rotated_away"]++
+			return ReadResult{}
+		}
 		if sl.parent != nil {
 			// The slicer ran: index entries for some of the designated
 			// slices may have been created before the failure. They are
